@@ -30,14 +30,14 @@ SUITE_LEAVES = {("value", None, "equal_to"), ("value", "length", "equal_to"), ("
 SHAPES = G.shapes_for(("value", "key", "index"), meaningful=True)
 
 PATHY_KEYS = ["path", "path.length", "\\path", "PATH", "Path.first", "xpath", "a\\path", "path.first.length", "\\PATH",
-              "path.xpath", "pathpath", "a\\pathpath", "path_of_path"]
+              "path.xpath", "pathpath", "a\\pathpath", "cfg.\\path", "dir.d\\path\\file", " path", "path ", "Path\t.len", "path\\path", "path_of_path"]
 
 
 def pathy_literal(r):
     d = {}
     if r.pct() < 30:
         d[r.choice(["b", "a", "z z"])] = G.json_value(r, 0)  # a plain key FIRST, the path-looking key after it
-    d[r.choice(PATHY_KEYS)] = G.json_value(r, 1)
+    d[r.choice(PATHY_KEYS)] = G.json_value(r, 1) if r.pct() < 85 else r.choice([{"path": ["a"]}, {"\\path": 1}, {"path.length": ["a", 0]}])
     if r.coin(40):
         d[r.choice(["b", "path", "\\path.x", "PATH"])] = G.json_value(r, 0)
     return d
